@@ -112,6 +112,22 @@ theorem encoded_array_faithful (vals : List Nat) :
 example : Enc.ofList [65542, 7, 9] = .u16 7 [65535, 0, 2] ∧ Enc.ofList [7, 65543] = .u32 7 [0, 65536] ∧
     Enc.ofList [4294967296, 0] = .u64 [4294967296, 0] := by decide
 
+/-- `EncodedU64Array::binary_search` (behind `SortedArray::position` and the hole test of `RangeWithHoles`): for every offset
+    width it finds exactly the stored values, at their index — in particular a probe 2^16·k (2^32·k) above a stored value of
+    a U16 (U32) array is not found, because the range check precedes the narrowing cast. This is what licenses treating
+    the holes / array payload of a segment as the plain list of its values (`Seg` in the model). -/
+theorem encoded_array_search_faithful (e : Enc) (hfit : e.Fits) (hnd : e.toList.Nodup) :
+    (∀ v i, e.binarySearch v = some i ↔ e.toList[i]? = some v) ∧
+    (∀ v, (e.binarySearch v).isSome = e.toList.contains v) ∧
+    (∀ w vals e', Enc.withWidth w vals = some e' → e'.toList = vals ∧ e'.Fits) :=
+  ⟨fun v i => e.binarySearch_spec hfit hnd v i, fun v => e.binarySearch_isSome hfit hnd v,
+   fun w vals e' h => Enc.withWidth_spec w vals e' h⟩
+
+example : (Enc.u16 3 [0, 4]).Fits ∧ (Enc.u16 3 [0, 4]).toList = [3, 7] ∧
+    (Enc.u16 3 [0, 4]).binarySearch 65539 = none ∧ (Enc.u16 3 [0, 4]).binarySearch 7 = some 1 ∧
+    Enc.withWidth 16 [3, 7] = some (.u16 3 [0, 4]) := by
+  refine ⟨by simp [Enc.Fits], by decide, by decide, by decide, by decide⟩
+
 /-! ## Part 2: sequences (`RowIdSequence`) -/
 
 /-- `len` and `get` -/
